@@ -16,7 +16,9 @@ def mergeExtend (base over : KVs) : Out KVs :=
   | .ok (.map m) => .ok m
   | .ok _ => .panic "override.ExtendService"       -- yaml.(map[string]any)
   | .err e => .err e
-  | .panic s => .panic s
+  -- the merge model names its panics after Go functions (`override.*`, or its own `fuel`); the guard makes
+  -- "never the marker of `applySvc`" hold by construction (it never fires: c05.extend correspondence)
+  | .panic s => .panic (if s = fuelMark then "override.ExtendService" else s)
 
 /-- the environment of a real load: main file, file system, real merge -/
 def realEnv (mainFile : String) (fs : FS) : Env := { mainFile := mainFile, fs := fs, extend := mergeExtend }
